@@ -8,6 +8,7 @@
 package main
 
 import (
+	"encoding/json"
 	"fmt"
 	"os"
 	"sort"
@@ -590,11 +591,59 @@ func restart(r *rep.Report, e rep.Env) {
 	}
 }
 
+// eventText: what the engine registers with the cron service is a piece of text (the event the
+// cron is to send back).  For every rule id, whatever characters it contains, that text must be
+// JSON for exactly {"trigger!": id}, and sending it back must run that rule and no other.
+func eventText(r *rep.Report) {
+	ids := []string{"plain", "tickA", `tick\u0041`, `a"b`, `back\\slash`, `x","evaluate!":{"action":{"code":"1"}},"y":"`, "tab\there", "uni\u00e9"}
+	for _, kind := range drv.Kinds {
+		w, err := newWorld(kind, false)
+		if err != nil {
+			r.Violate("", "cannot build world", nil)
+			return
+		}
+		loc := w.locs["A"]
+		for _, id := range ids {
+			rule := core.Map{"schedule": "0 0 1 1 *", "action": map[string]interface{}{"code": "ruleId"}}
+			_, aerr := loc.AddRule(drv.Ctx(), id, rule)
+			r.Case(true, "event-text"+kind+id)
+			r.Count("event_text_cases", 1)
+			if aerr != nil {
+				continue // refused: nothing registered, nothing to send back
+			}
+		}
+		for _, j := range w.rec.Jobs() {
+			wit := rep.J{"state": kind, "rule_id": j.Id, "registered_event_text": j.Event}
+			var ev map[string]interface{}
+			if err := json.Unmarshal([]byte(j.Event), &ev); err != nil {
+				r.Violate("", "the event registered with the cron service for a scheduled rule is not JSON", wit)
+				continue
+			}
+			if len(ev) != 1 || ev["trigger!"] != j.Id {
+				wit["parsed"] = ev
+				r.Violate("", "the event registered with the cron service does not name the rule it was registered for", wit)
+			}
+			fr, cond := loc.ProcessEvent(drv.Ctx(), core.Map(ev))
+			vals := []string{}
+			if fr != nil {
+				for _, v := range fr.Values {
+					vals = append(vals, fmt.Sprint(v))
+				}
+			}
+			if cond != nil || len(vals) != 1 || vals[0] != j.Id {
+				wit["values"], wit["condition"] = vals, cond
+				r.Violate("", "sending back the event registered for a scheduled rule does not run exactly that rule", wit)
+			}
+		}
+	}
+}
+
 func main() {
 	e := rep.GetEnv()
 	r := rep.New(e)
 	switch e.Stage {
 	case "timed":
+		eventText(r)
 		restart(r, e)
 		collisions(r)
 		expiry(r)
